@@ -11,6 +11,7 @@ import sx
 from sx import core, rope
 from sx.core import symint, symbool, symreal, check, assume, SxInt, SxBool, E, And, Or, Not, Iff, ite, choose
 from sx.models import env_m
+from . import proto
 from .common import Registry, real
 
 conn = sx.load('connection')
@@ -22,7 +23,7 @@ KEY = b'K' * 16
 
 def mk_conn(server=False, mtu_sym=True):
     if mtu_sym:
-        Packet.setMTU(symint('mtu', 512, 1500))
+        proto.set_mtu()
     c = conn.ConnectionBase(server, ('peer', 1))
     c.status = conn.ConnectionStatus.CONNECTED
     c.session_key_bytes = KEY
@@ -69,7 +70,7 @@ def l61(maxfrag):
 def replay_l61(cfg, m):
     import os
     c = real('mpgameserver.connection')
-    c.Packet.setMTU(m.get('mtu', 1500))
+    proto.replay_set_mtu(c, m)
     try:
         cn = c.ConnectionBase(False, ('p', 1))
         cn.status = c.ConnectionStatus.CONNECTED
@@ -344,7 +345,7 @@ def l63(maxfrag, steps):
 def replay_l63(cfg, m):
     import os
     c = real('mpgameserver.connection')
-    c.Packet.setMTU(m.get('mtu', 1500))
+    proto.replay_set_mtu(c, m)
     import unittest.mock as um
     try:
         with um.patch.object(c.time, 'time', lambda: 1000.0):
